@@ -158,31 +158,62 @@ TERMINATING = ("stopping", "exact", "ties", "pattern", "corpus")   # styles whos
 
 def pattern_games3(kmax, tiny=1e-7):
     """like pattern_games, but each successor is dead (0), alive (reaches F surely) or barely alive (reaches F
-    with probability `tiny`, far below the solver's threshold and its 6-digit rounding)"""
+    with probability `tiny`, far below the solver's threshold and its 6-digit rounding). Variants: the pattern node is
+    the initial state, or hosted behind an initial coin flip (0.5 -> F, 0.5 -> node), which forces a second sweep so
+    that the node's own tiny value is actually computed and the game is solvable; hosted patterns also come with
+    Player-2 successors (which pruning never empties, so a dead one keeps its reward)."""
     out = []
-    for kind in (P1, PR):
-        for k in range(1, kmax + 1):
-            for pat in itertools.product([0, 1, 2], repeat=k):
-                if 2 not in pat:
-                    continue
-                F, S = k + 1, k + 2
-                succ = list(range(1, k + 1))
-                if kind == PR:
-                    ws = [Fr(i + 1, k * (k + 1) // 2) for i in range(k)]
-                    row, fr0 = [(_fl(w), d) for w, d in zip(ws, succ)], ws
-                else:
-                    row, fr0 = [(ACTS[i], d) for i, d in enumerate(succ)], None
-                tl, fr = [row], [fr0]
-                for a in pat:
-                    if a == 2:
-                        tl.append([(tiny, F), (1 - tiny, S)]); fr.append([Fr(tiny), 1 - Fr(tiny)])
+    for hosted, succ_kind in ((False, PR), (True, PR), (True, P2)):
+        for kind in (P1, PR):
+            for k in range(1, kmax + 1):
+                for pat in itertools.product([0, 1, 2], repeat=k):
+                    if 2 not in pat:
+                        continue
+                    o = 1 if hosted else 0            # index of the pattern node
+                    nt = sum(1 for a in pat if a == 2) if succ_kind == P2 else 0   # helper tiny states
+                    F, S = o + k + nt + 1, o + k + nt + 2
+                    succ = list(range(o + 1, o + k + 1))
+                    if kind == PR:
+                        ws = [Fr(i + 1, k * (k + 1) // 2) for i in range(k)]
+                        row, fr0 = [(_fl(w), d) for w, d in zip(ws, succ)], ws
                     else:
-                        tl.append([(1, F if a else S)]); fr.append([Fr(1)])
-                tl += [[(1, F)], [(1, S)]]
-                fr += [[Fr(1)], [Fr(1)]]
-                g = dict(rewards=[1] + [i for i in range(k)] + [0, 0],
-                         players=[kind] + [PR] * k + [PR, PR], transition_list=tl, final_states=[F])
-                out.append((g, dict(fr=fr, style="tinypattern", full=True)))
+                        row, fr0 = [(ACTS[i], d) for i, d in enumerate(succ)], None
+                    tl, fr, players = [row], [fr0], [kind]
+                    helper = o + k + 1
+                    helpers = []
+                    for a in pat:
+                        if succ_kind == PR:
+                            players.append(PR)
+                            if a == 2:
+                                tl.append([(tiny, F), (1 - tiny, S)]); fr.append([Fr(tiny), 1 - Fr(tiny)])
+                            else:
+                                tl.append([(1, F if a else S)]); fr.append([Fr(1)])
+                        else:
+                            players.append(P2)
+                            fr.append(None)
+                            if a == 2:
+                                tl.append([("x", helper)]); helpers.append(helper); helper += 1
+                            else:
+                                tl.append([("x", F if a else S)])
+                    for _ in helpers:
+                        players.append(PR); tl.append([(tiny, F), (1 - tiny, S)]); fr.append([Fr(tiny), 1 - Fr(tiny)])
+                    tl += [[(1, F)], [(1, S)]]
+                    fr += [[Fr(1)], [Fr(1)]]
+                    players += [PR, PR]
+                    rew = [1] + [i + 1 for i in range(k)] + [0] * nt + [0, 0]
+                    if hosted:
+                        tl = [[(0.5, F), (0.5, 1)]] + tl
+                        fr = [[Fr(1, 2), Fr(1, 2)]] + fr
+                        rew = [0] + rew
+                        players = [PR] + players
+                    g = dict(rewards=rew, players=players, transition_list=tl, final_states=[F])
+                    out.append((g, dict(fr=fr, style="tinypattern", full=True, guard="cond")))
+                    if hosted:
+                        # the same game with the inner states numbered in reverse: the in-place sweep then sees the
+                        # successors' values before the node's own update, so the node's tiny value is computed
+                        n = len(players)
+                        perm = [0] + [n - 2 - s for s in range(1, n - 2)] + [n - 2, n - 1]
+                        out.append(rename(g, dict(fr=fr, style="tinypattern", full=True, guard="cond"), perm))
     return out
 
 
